@@ -46,6 +46,8 @@ def mutate(doc, path, typ):
     cur = doc
     for i, p in enumerate(parts[:-1]):
         if isinstance(cur, list):
+            if not p.isdigit():
+                return doc      # an earlier mutation replaced this container: the path no longer exists
             idx = int(p)
             if idx >= len(cur):
                 return doc
@@ -60,6 +62,8 @@ def mutate(doc, path, typ):
         cur = nxt
     last = parts[-1]
     if isinstance(cur, list):
+        if not last.isdigit():
+            return doc
         idx = int(last)
         if typ == "missing":
             if idx < len(cur):
